@@ -329,7 +329,7 @@ class Walker:
         self.checkpoint[t] = set(got)
         self.stats["reads:select"] += 1
         self._cur_atoms = []
-        _invariance(self, li, si, st.get("text"), sorted(x for x in got if x is not None))
+        _invariance(self, li, si, st.get("text"), sorted((x for x in got if x is not None), key=str))
         if len(self.samples) < 3:
             self.samples.append({"life": li, "step": si, "text": st.get("text"), "rows": len(rows)})
 
@@ -385,7 +385,7 @@ class Walker:
             self.v("replay-order", li, si, f"{what}: returned k order {got}, append order {[e.k for e in sorted((self.model.bykey[k] for k in set(got) if k in self.model.bykey), key=lambda e: e.idx)]}")
         self.stats["reads:replay"] += 1
         self._cur_atoms = []
-        _invariance(self, li, si, what, sorted(x for x in got if x is not None), "membership")
+        _invariance(self, li, si, what, sorted((x for x in got if x is not None), key=str), "membership")
 
 
 # ====================================================================== query oracles
@@ -446,7 +446,7 @@ def on_query(self, li, si, st, meta, issue, r):
         for e in must:
             if seen[e.k] == 0:
                 self.v("query-missing", li, si, f"{what}: matching event k={e.k} (stored {e.stored}, ctx {e.ctx}) not returned", k=e.k, atoms=self._cur_atoms)
-        _invariance(self, li, si, what, sorted(x for x in got if x is not None))
+        _invariance(self, li, si, what, sorted((x for x in got if x is not None), key=str))
     else:
         want_n = min(lim, len(must))
         if not may and len(set(got)) != want_n:
@@ -592,3 +592,171 @@ Walker.on_query = on_query
 Walker.on_agg = on_agg
 Walker.on_ordered = on_ordered
 Walker.on_expect_error = on_expect_error
+
+
+# ====================================================================== C13 oracle
+
+def on_auth(self, li, si, st, meta, issue, r):
+    self.stats["auth_requests"] += 1
+    if r is None:
+        return
+    ok = r.stage == "auth-ok"
+    if ok and not meta.get("expect_ok", True):
+        self.v("revoked-still-works", li, si, f"AUTH of revoked user {meta.get('user')} succeeded", feat="AUTH")
+
+
+def on_authcmd(self, li, si, st, meta, issue, r):
+    self.stats["auth_requests"] += 1
+    if r is None or "authenticated" not in meta:
+        return
+    executed = r.ok() and r.stage == "dispatch"
+    user, form, bad, kind = meta.get("user"), meta.get("form"), meta.get("bad"), meta.get("cmdkind")
+    feat = f"{kind}:{form}" + (f":{bad}" if bad else "")
+    self.stats["auth:" + ("executed" if executed else "refused")] += 1
+    authenticated = meta["authenticated"]
+    if form == "token" and bad is None:
+        # a token is live until its expiry on the simulated wall clock and while its user is active
+        age_ms = issue["wall_ms"] - meta.get("token_wall", issue["wall_ms"])
+        if age_ms > meta.get("expiry_s", 60) * 1000 + 2000:
+            if executed:
+                self.v("expired-token-works", li, si, f"{st.get('text')[:120]}: session token used {age_ms/1000:.0f}s after AUTH (expiry {meta.get('expiry_s')}s) was accepted", feat=feat, user=user)
+            return
+        if age_ms > meta.get("expiry_s", 60) * 1000 - 2000:
+            return   # too close to the boundary to call
+    if form == "conn" and not meta.get("active", True) and bad is None:
+        # documented: previously authenticated connections may keep working until they disconnect
+        return
+    if not authenticated:
+        if executed:
+            clause = "revoked-still-works" if (bad is None and not meta.get("active", True)) else "unauthenticated-executed"
+            self.v(clause, li, si, f"{st.get('text')[:160]}: executed although the credentials are invalid ({bad or 'revoked user'})", feat=feat, user=user)
+        return
+    if not meta["authorized"] and executed:
+        need = meta.get("need")
+        clause = "nonadmin-admin-op" if need == "admin" else ("unauthorized-write" if isinstance(need, list) and need[0] == "write" else "unauthorized-read")
+        self.v(clause, li, si, f"{st.get('text')[:160]}: user {user!r} lacks {need} but the command executed: {str(r)[:160]}", feat=feat, user=user)
+
+
+Walker.on_auth = on_auth
+Walker.on_authcmd = on_authcmd
+
+
+# ====================================================================== C14 oracle
+
+def on_remember(self, li, si, st, meta, issue, r):
+    if r is None:
+        return
+    self.mats = getattr(self, "mats", {})
+    ok = r.kind == "plain" and r.status == 200
+    if meta["name"] in self.mats:
+        if ok:
+            self.v("remember-duplicate-accepted", li, si, f"{st.get('text')}: name already in use but REMEMBER succeeded")
+        return
+    if ok:
+        self.mats[meta["name"]] = True
+    self.stats["cmd:remember_ok" if ok else "cmd:remember_failed"] += 1
+
+
+def on_show(self, li, si, st, meta, issue, r):
+    what = st.get("text")
+    self.mats = getattr(self, "mats", {})
+    if meta["name"] not in self.mats:
+        return
+    if r is None:
+        return
+    if r.kind != "stream":
+        self.v("show-error", li, si, f"{what}: {r}")
+        return
+    rows = r.dicts()
+    if not r.frames_ok or r.row_count != len(r.rows):
+        self.v("frames", li, si, f"{what}: end row_count={r.row_count} but {len(r.rows)} rows")
+    got = Counter()
+    for row in rows:
+        k = row.get("k")
+        if k is None:
+            k = self.k_of_eid.get(row.get("event_id"))
+        got[k] += 1
+    live = getattr(self, "last_sel", {}).get(meta.get("fkey"))
+    self.stats["reads:show"] += 1
+    if live is None:
+        return
+    live = set(live)
+    for k, n in got.items():
+        if n > 1:
+            self.v("show-duplicate", li, si, f"{what}: k={k} returned {n} times", k=k)
+        if k not in live:
+            self.v("show-extra", li, si, f"{what}: returns k={k} which the live query does not return in the same state", k=k)
+    for k in live:
+        if k not in got:
+            self.v("show-missing", li, si, f"{what}: live query returns k={k}, SHOW does not", k=k)
+    if meta.get("again"):
+        prev = getattr(self, "last_show", {}).get(meta["name"])
+        if prev is not None and prev != got:
+            self.v("show-unstable", li, si, f"{what}: repeated SHOW without new data returned {sorted(got.elements(), key=str)} after {sorted(prev.elements(), key=str)}")
+    self.last_show = getattr(self, "last_show", {})
+    self.last_show[meta["name"]] = got
+
+
+Walker.on_remember = on_remember
+Walker.on_show = on_show
+
+
+# ====================================================================== C15 oracle
+
+def on_seq(self, li, si, st, meta, issue, r):
+    what = st.get("text")
+    rows = self._rows(li, si, r, what)
+    if rows is None:
+        return
+    a_t, b_t, rel = meta["a"], meta["b"], meta["rel"]
+    if any(e.state == "may" for e in self.model.events):
+        return
+    conds = meta.get("conds") or []
+
+    def ok_side(ev):
+        return all(ev.stored.get(f) == v for t, f, v in conds if t == ev.type)
+    A = [e for e in self.model.live(a_t) if ok_side(e)]
+    B = [e for e in self.model.live(b_t) if ok_side(e)]
+    want = Q.match_sequences(A, B, meta["link"], rel)
+    if len(rows) % 2 != 0:
+        self.v("seq-shape", li, si, f"{what}: {len(rows)} rows do not form pairs")
+        return
+    got_a = []
+    for i in range(0, len(rows), 2):
+        pair = rows[i:i + 2]
+        ea = [x for x in pair if x.get("event_type") == a_t]
+        eb = [x for x in pair if x.get("event_type") == b_t]
+        if len(ea) != 1 or len(eb) != 1:
+            self.v("seq-shape", li, si, f"{what}: rows {i},{i+1} are not one {a_t} and one {b_t} event: {pair}")
+            continue
+        ma, mb = self.model.bykey.get(ea[0].get("k")), self.model.bykey.get(eb[0].get("k"))
+        if ma is None or mb is None or ma.state != "must" or mb.state != "must":
+            self.v("seq-extra", li, si, f"{what}: pair refers to an event that was never applied: {pair}")
+            continue
+        got_a.append(ma.k)
+        problems = []
+        if ma.stored.get(meta["link"]) != mb.stored.get(meta["link"]):
+            problems.append(f"link values differ ({ma.stored.get(meta['link'])!r} vs {mb.stored.get(meta['link'])!r})")
+        if rel == "FOLLOWED BY" and not (mb.ts >= ma.ts):
+            problems.append(f"b at {mb.ts} is earlier than a at {ma.ts}")
+        if rel == "PRECEDED BY" and not (mb.ts < ma.ts):
+            problems.append(f"b at {mb.ts} is not strictly earlier than a at {ma.ts}")
+        if not ok_side(ma) or not ok_side(mb):
+            problems.append("a side does not satisfy its WHERE condition")
+        if problems:
+            self.v("seq-bad-pair", li, si, f"{what}: pair (k={ma.k}, k={mb.k}): " + "; ".join(problems))
+    lim = meta.get("limit")
+    if lim is not None:
+        if len(got_a) != min(lim, len(want)):
+            self.v("seq-limit", li, si, f"{what}: {len(got_a)} sequences, expected min({lim}, {len(want)})")
+    else:
+        for k in sorted(want - set(got_a)):
+            self.v("seq-missing", li, si, f"{what}: a-event k={k} has a qualifying partner but is not matched")
+        for k in sorted(set(got_a) - want):
+            self.v("seq-extra", li, si, f"{what}: a-event k={k} is matched although no qualifying partner exists")
+        self._cur_atoms = []
+        _invariance(self, li, si, what, sorted(set(got_a)), "matched a-events")
+    self.stats["reads:seq"] += 1
+
+
+Walker.on_seq = on_seq
